@@ -70,6 +70,10 @@ CLAIMS = {
             "Decides the table clause: the length-prefix rows of the writer, of the two length functions, of the canonical check and the decoder caps are mutually consistent and each n-byte row ends at 2^(7n-1) (shortest prefix). ALL rows of ALL five tables; not decode(encode(x)) == x.",
             "Trusts rustc's MIR and constant evaluation; u32 truncation of atom lengths in serialized_length_atom is harmless because the heap limit is <= u32::MAX (C13/R13c). Round-trip on trees is not decided.",
             "DESIGN.md 4/C15"),
+    "C16": ("table rules of C15 + constant agreement across modules, call-graph routing (every decoder reaches the one prefix decoder; who-may-call leading_ones), SCC computation on the resolved call graph (trait calls expanded to all impls), comparison normal forms for short-read tests, explicit-panic inventory",
+            "Decides: the canonical check and the writer/decoder tables agree (C15 rules); the 14 duplicated wire constants agree; all 8 decoders/probes use decode_size_with_offset and compare the first byte only with the protocol constants; no function reachable from decoders, serializers, tree hashers or run_program is recursive (259 functions, no SCC); body-consuming helpers fail on short reads; explicit panic sites in decoder code are audited. Not equal consumption / equal trees across decoders (value properties).",
+            "Trusts rustc's MIR and callee resolution; unresolved trait calls are over-approximated by all local impls.",
+            "DESIGN.md 4/C16"),
     "C23": ("static cost arithmetic: abstract interpretation of CLVM's cost rules on the fixed ChiaLisp program over an abstract tree, constants extracted from source, coefficient-wise inequalities",
             "Proof by closed forms: lisp(tree) = S + sum_atoms(A + B*len) + sum_pairs P is DERIVED from the program bytes embedded in the repository and the current constants (it reproduces the four CLVM figures printed in docs/sha256tree.md exactly), native(tree) likewise from its constants; B' <= B, A' <= A, P' < P, S'+A' < S+A imply native < lisp for every tree; discharged for both cost models (8 obligations + shape + 4 cross-checks).",
             "Trusted base: the 80-line cost-rule interpreter in rules/c23.py (which constant is charged for quote/apply/op call/path lookup/cons/listp/if/sha256 - pinned against the code by C02 and C10), constant extraction by the driver, the embedded program bytes.",
